@@ -355,3 +355,231 @@ func TestVerif_C09_window(t *testing.T) {
 	kit.Run(t, "C09", "window-model", kit.Opts{Quick: 6000, Thorough: 480000}, c09wGen,
 		func(c c09wCase) kit.Verdict { return c09wInterp(t, c) })
 }
+
+// Small-scope exhaustive enumeration: every op sequence of length L over the
+// alphabet {add, advance by 0 / half / interval-1ns / interval / interval+1ns /
+// (size-1) intervals / size intervals / size+1 intervals} for size 1..3, with
+// and without the current bucket, interval 10 ms. The interpreter reduces after
+// every op, so all shorter prefixes are judged too.
+func c09wEnumerate(maxSize, length int) func(yield func(c09wCase) bool) {
+	const iv = int64(10 * time.Millisecond)
+	return func(yield func(c09wCase) bool) {
+		for size := 1; size <= maxSize; size++ {
+			alphabet := []c09wOp{
+				{K: "add"},
+				{K: "adv", D: 0, G: "0"},
+				{K: "adv", D: iv / 2, G: "half"},
+				{K: "adv", D: iv - 1, G: "iv-1"},
+				{K: "adv", D: iv, G: "iv"},
+				{K: "adv", D: iv + 1, G: "iv+1"},
+				{K: "adv", D: int64(size) * iv, G: "size*iv"},
+				{K: "adv", D: int64(size+1) * iv, G: "(size+1)*iv"},
+			}
+			if size > 2 {
+				alphabet = append(alphabet, c09wOp{K: "adv", D: int64(size-1) * iv, G: "(size-1)*iv"})
+			}
+			idx := make([]int, length)
+			for _, ign := range []bool{false, true} {
+				for i := range idx {
+					idx[i] = 0
+				}
+				for {
+					ops := make([]c09wOp, length)
+					hasAdd := false
+					for i, a := range idx {
+						ops[i] = alphabet[a]
+						hasAdd = hasAdd || a == 0
+					}
+					if hasAdd && ops[length-1].K != "adv" || hasAdd && ops[length-1].D != 0 {
+						if !yield(c09wCase{Size: size, Iv: iv, Ign: ign, Ops: ops}) {
+							return
+						}
+					}
+					p := length - 1
+					for p >= 0 {
+						idx[p]++
+						if idx[p] < len(alphabet) {
+							break
+						}
+						idx[p] = 0
+						p--
+					}
+					if p < 0 {
+						break
+					}
+				}
+			}
+		}
+	}
+}
+
+func TestVerif_C09_window_exhaustive(t *testing.T) {
+	length := 5
+	if kit.Thorough() {
+		length = 6
+	}
+	kit.Enumerate(t, "C09", "window-exhaustive", c09wEnumerate(3, length),
+		func(c c09wCase) kit.Verdict { return c09wInterp(t, c) })
+}
+
+// Concurrent adders (and reducers) at equal and at advancing instants: G
+// goroutines add the value 1 M times per round; between rounds the clock
+// advances. After every round (quiescent) the reference is exact per bucket. A
+// reducer running concurrently with the adders must never see a torn bucket
+// (Sum != Count) and the total it sees lies between the visible total before
+// the round and that total plus G*M (exactly the former when the current bucket
+// is ignored): nothing lost, nothing counted twice under contention.
+type c09cRound struct {
+	D int64 `json:"d"` // advance before the round, ns
+}
+
+type c09cCase struct {
+	Size   int         `json:"size"`
+	Iv     int64       `json:"iv"`
+	Ign    bool        `json:"ign"`
+	G      int         `json:"g"`
+	M      int         `json:"m"`
+	Rounds []c09cRound `json:"rounds"`
+}
+
+func c09cInterp(t *testing.T, c c09cCase) (v kit.Verdict) {
+	if c.Size < 1 || c.Iv <= 0 || c.G < 1 || c.M < 1 || c.G*c.M > 1<<20 || len(c.Rounds) > 64 {
+		v.Excluded = true
+		return v
+	}
+	for _, r := range c.Rounds {
+		if r.D < 0 {
+			v.Excluded = true
+			return v
+		}
+	}
+	var fail string
+	size := int64(c.Size)
+	expired := false
+	res := kit.Bubble(t, func() {
+		var opts []RollingWindowOption
+		if c.Ign {
+			opts = append(opts, IgnoreCurrentBucket())
+		}
+		rw := NewRollingWindow(c.Size, time.Duration(c.Iv), opts...)
+		counts := map[int64]int64{} // reference: bucket index -> number of adds of 1
+		var el int64
+		reduce := func() (list []int64, total int64, torn string) {
+			rw.Reduce(func(b *Bucket) {
+				sum, count := b.Sum, b.Count
+				if float64(count) != sum {
+					torn = fmt.Sprintf("bucket with Sum %v but Count %d (every add has value 1)", sum, count)
+				}
+				if count != 0 {
+					list = append(list, count)
+					total += count
+				}
+			})
+			sort.Slice(list, func(i, j int) bool { return list[i] < list[j] })
+			return
+		}
+		expect := func() (w []int64, total int64) {
+			cur := el / c.Iv
+			lo, hi := cur-size, cur
+			if c.Ign {
+				hi = cur - 1
+			}
+			for b, n := range counts {
+				if b > lo && b <= hi {
+					w = append(w, n)
+					total += n
+				} else if b <= lo {
+					expired = true
+				}
+			}
+			sort.Slice(w, func(i, j int) bool { return w[i] < w[j] })
+			return
+		}
+		for r, rd := range c.Rounds {
+			time.Sleep(time.Duration(rd.D))
+			el += rd.D
+			cur := el / c.Iv
+			_, before := expect()
+			after := before
+			if !c.Ign {
+				after += int64(c.G * c.M)
+			}
+			var wg sync.WaitGroup
+			var rmu sync.Mutex
+			var rfail string
+			for g := 0; g < c.G; g++ {
+				wg.Add(1)
+				go func() {
+					defer wg.Done()
+					for m := 0; m < c.M; m++ {
+						rw.Add(1)
+					}
+				}()
+			}
+			for k := 0; k < 2; k++ {
+				wg.Add(1)
+				go func() {
+					defer wg.Done()
+					for m := 0; m < 8; m++ {
+						_, total, msg := reduce()
+						if msg == "" && (total < before || total > after) {
+							msg = fmt.Sprintf("concurrent Reduce saw %d adds in total, outside [%d,%d]", total, before, after)
+						}
+						if msg != "" {
+							rmu.Lock()
+							if rfail == "" {
+								rfail = msg
+							}
+							rmu.Unlock()
+						}
+					}
+				}()
+			}
+			wg.Wait()
+			if rfail != "" {
+				fail = fmt.Sprintf("round %d at +%dns: %s", r, el, rfail)
+				return
+			}
+			counts[cur] += int64(c.G * c.M)
+			got, _, torn := reduce()
+			want, _ := expect()
+			if torn != "" || fmt.Sprint(got) != fmt.Sprint(want) && !(len(got) == 0 && len(want) == 0) {
+				fail = fmt.Sprintf("round %d at +%dns (bucket %d): after %d goroutines x %d adds of 1 Reduce saw bucket counts %v, reference %v %s", r, el, cur, c.G, c.M, got, want, torn)
+				return
+			}
+		}
+	})
+	v.NonTrivial = len(c.Rounds) > 1 && expired
+	if c.Ign {
+		v.Classes = append(v.Classes, "ignore-current")
+	}
+	if expired {
+		v.Classes = append(v.Classes, "expired-buckets")
+	}
+	if fail != "" {
+		v.Fail = fail
+	} else if !res.OK() {
+		v.Fail = "bubble: " + res.String()
+	}
+	return v
+}
+
+func TestVerif_C09_window_concurrent(t *testing.T) {
+	kit.Run(t, "C09", "window-concurrent", kit.Opts{Quick: 400, Thorough: 6400},
+		func(rt *rapid.T) c09cCase {
+			c := c09cCase{
+				Size: rapid.IntRange(1, 6).Draw(rt, "size"),
+				Iv:   rapid.SampledFrom(c09wIntervals).Draw(rt, "iv"),
+				Ign:  rapid.Bool().Draw(rt, "ign"),
+				G:    rapid.IntRange(2, 8).Draw(rt, "g"),
+				M:    rapid.IntRange(1, 2000).Draw(rt, "m"),
+			}
+			n := rapid.IntRange(1, 6).Draw(rt, "rounds")
+			for i := 0; i < n; i++ {
+				d := rapid.SampledFrom([]int64{0, 0, c.Iv / 2, c.Iv, c.Iv, 2 * c.Iv, int64(c.Size) * c.Iv, int64(c.Size+1) * c.Iv}).Draw(rt, "d")
+				c.Rounds = append(c.Rounds, c09cRound{D: d})
+			}
+			return c
+		},
+		func(c c09cCase) kit.Verdict { return c09cInterp(t, c) })
+}
